@@ -212,6 +212,8 @@ def run(ctx: core.Ctx):
     b2check.run_b2(ctx, thread_jobs, ["C02t"], label="chunked arrival through the real reader thread", accept=False)
     b2check.run_b2(ctx, lambda rng, th: [(gen.with_second(rng, gen.conn_chunked(rng, T)), rng.randrange(10 ** 9), rng.choice([0, 3])) for _ in range(3000 if th else 80)],
                    ["C02two"], label="a second connection with its own traffic alive in the same process (first connection's callback judged)", accept=False)
+    b2check.run_b2(ctx, lambda rng, th: [(gen.conn_reg_race(rng), rng.randrange(10 ** 9), 0) for _ in range(6000 if th else 400)], ["C09"],
+                   label="every REGISTERED callback: several threads (un)register callbacks at the same instant while lines are delivered (bytecode-level switches in the registration), monitor only", accept=False)
     b2check.run_b2(ctx, lambda rng, th: [(gen.conn_reconnect(rng, T), rng.randrange(10 ** 9), rng.choice([0, 0, 3])) for _ in range(4000 if th else 120)],
                    ["C02r"], label="connect() again on the same connection object after a close() / a lost link that left a partial line", accept=False)
     return ctx.finish()
@@ -221,7 +223,7 @@ def replay(ctx, path):
     rp = json.load(open(path))["replay"]
     if rp.get("path") == "b2":
         from .. import b2check
-        return b2check.replay_b2(rp, ["C02r" if rp["spec"].get("reconnect_device") else ("C02two" if rp["spec"].get("second") else "C02t")])
+        return b2check.replay_b2(rp, ["C02r" if rp["spec"].get("reconnect_device") else ("C02two" if rp["spec"].get("second") else ("C09" if rp["spec"].get("hot") else "C02t"))])
     from ynca.connection import YncaProtocol
     p = YncaProtocol(lambda *a: print("impl callback:", a), None, 0)
     if "line" in rp:
